@@ -11,6 +11,9 @@ import (
 
 const (
 	SchemaFilename = "schema.json"
+	// DirtyFilename is the name of the file marking a collection whose
+	// object files and committed schema may disagree
+	DirtyFilename = ".dirty"
 )
 
 var (
@@ -78,6 +81,8 @@ type Schema struct {
 	db           *DB
 	object       Object
 	transformers []FieldDescriptor
+	// the marker file of the collection exists
+	dirty bool
 
 	Fields      FieldDescMap `json:"fields"`
 	Extension   string       `json:"extension"`
@@ -311,6 +316,12 @@ func (s *Schema) control() (err error) {
 	// controlling index in memory
 	if err = s.ObjectIndex.control(); err != nil {
 		return
+	}
+
+	// a marker nobody removed: the process died (or a commit failed) while
+	// object files and schema on disk did not agree
+	if !s.dirty && isFileAndExist(s.db.dirtyPath(s.object)) {
+		return fmt.Errorf("%s %w: collection was not committed", typeof(s.object), ErrIndexCorrupted)
 	}
 
 	// verifying index integrity (longer process so done at last)
